@@ -985,7 +985,7 @@ where
         self.graph_wf(), self.vertices@.contains_key(index), self.vertices@.contains_key(vertex),
         reachable_vertices@.contains(index), reachable_vertices@.contains(vertex),
         reachable_vertices@.subset_of(self.vertices@.dom()),
-        seq_lists_set_ref(it.seq(), self.successors@[vertex]@),
+        /*@iterates_successors*/ seq_lists_set_ref(it.seq(), self.successors@[vertex]@),
         forall|v: usize| #![trigger reachable_vertices@.contains(v)] reachable_vertices@.contains(v) ==> self.reaches(index, v),
         forall|i: int| 0 <= i < queue@.len() ==> reachable_vertices@.contains(#[trigger] queue@[i]),
         forall|a: usize, b: usize| #![trigger self.edges@.contains_key((a, b))]
